@@ -506,6 +506,25 @@ func c07TokenSoup(w *core.W, j int) {
 		c07Parse(w, "own.example. 60 IN "+name+" "+sb.String()+"\nnext.example. 60 IN A 192.0.2.1\n", cfg, "token-soup/"+name, nil)
 	}
 	w.Count("token_soup_cases", 1)
+	// SVCB/HTTPS parameters (one case per run does the whole matrix): every key with values whose list
+	// syntax is off - leading, doubled and trailing commas, empty and quoted items, escaped commas
+	if j == 0 {
+		keys := []string{"mandatory", "alpn", "no-default-alpn", "port", "ipv4hint", "ech", "ipv6hint", "dohpath", "ohttp", "key9", "key65534", "key65535", "key0", "KEY1", "Alpn"}
+		vals := []string{"", "=", "=,", "=,,", "=,alpn", "=alpn,", "=alpn,,port", "=\",\"", "=\"\"", "=\",a\"", "=a,,b", "=h2,", "=,h2", "=h2,,h3", "=\\,", "=\\\\,", "=1.2.3.4,", "=,1.2.3.4", "=1.2.3.4,,5.6.7.8",
+			"=::1,", "=,::1", "=::,,::", "=65536", "=-1", "=0,", "=,", "=alpn,alpn", "=key1,key1", "=port,alpn", "=mandatory", "=\\044", "=a\\,b,c", "=\"a,b\"", "=" + strings.Repeat("a", 256), "=" + strings.Repeat("a,", 300), "==", "=a=b"}
+		for _, typ := range []string{"SVCB", "HTTPS"} {
+			for _, k := range keys {
+				for _, v := range vals {
+					for _, pre := range []string{"1 . ", "1 svc.example. alpn=h2 ", "0 . "} {
+						text := "own.example. 60 IN " + typ + " " + pre + k + v
+						c07Parse(w, text, cfg, "svcb-params/"+typ, nil)
+						c07Parse(w, text+" port=53\nnext.example. 60 IN A 192.0.2.1\n", cfg, "svcb-params/"+typ, nil)
+					}
+				}
+			}
+		}
+		w.Count("svcb_param_matrix_runs", 1)
+	}
 }
 
 // c07CommentBoundary: comments of n octets at the places where the lexer carries a comment over
